@@ -12,7 +12,8 @@ import ShVerif.Base.Hex
   §5  specifications: `hdocSem` (one left-to-right pass over the here-document text, POSIX 2.7.4 /
       2.6), `argsSem` (atoms split at separators, POSIX 2.6.5), `malformed`
 
-  Fragment (everything else answers `outside`): bytes without NUL/CR; `$name`, `${name}`,
+  Fragment (everything else answers `outside`): valid UTF-8 without NUL/CR (the parser rejects
+  invalid encodings; the harness never asks the model about them); `$name`, `${name}`,
   `${name:-w}`, `${name-w}`, `${name:+w}`, `${name+w}` with `w` made of plain characters and
   `$name`/`${name}`; `$(( ))` over decimal literals, names, `+ - *`, parentheses, blanks;
   backslashes; for Fields also blanks, '…', "…" and a `~`/`~/` prefix.  No command substitution,
@@ -307,7 +308,7 @@ def parseDoc : Nat → Bytes → Bytes → List Part → PRes (List Part)
     if b == 0 || b == 13 || b == bBQ then .outside
     else if b == bBS then
       match rest with
-      | [] => parseDoc fuel [] (cur ++ [b]) acc
+      | [] => .ok (acc ++ [.lit (cur ++ [b])])          -- a lone final backslash
       | c :: rest' =>
         if c == 0 || c == 13 then .outside
         else parseDoc fuel rest' (cur ++ [b, c]) acc
@@ -427,8 +428,7 @@ def unescQ (dq : Bool) : Bytes → Bytes
   | [b] => [b]
   | b :: c :: rest =>
     if b == bBS then
-      if c == bBS || c == bDollar || c == bBQ || (dq && c == bDQ) then c :: unescQ dq rest
-      else b :: unescQ dq (c :: rest)
+      (if c == bBS || c == bDollar || c == bBQ || (dq && c == bDQ) then [c] else [b, c]) ++ unescQ dq rest
     else b :: unescQ dq (c :: rest)
 
 def paramVal (env : Env) (n : Bytes) : Bytes :=
@@ -585,7 +585,7 @@ inductive Res (α : Type)
   | ok (a : α)
   | err
   | outside
-  deriving Repr
+  deriving Repr, DecidableEq
 
 /-- shell.Expand. -/
 def shellExpand (s : Bytes) (env : Env) : Res Bytes :=
@@ -616,5 +616,115 @@ def shellFields (s : Bytes) (env : Env) : Res (List Bytes) :=
       | some fs => .ok fs
       | none => .outside
   else .outside   -- a custom IFS: outside the fragment
+
+/-! ## §5 specifications -/
+
+def Res.map {α β} (f : α → β) : Res α → Res β
+  | .ok a => .ok (f a)
+  | .err => .err
+  | .outside => .outside
+
+/-- bash removes backslash-newline pairs while it reads an unquoted here-document; backslashes pair
+    up from the left (`\\` followed by a newline keeps the newline). -/
+def bashJoin : Bytes → Bytes
+  | [] => []
+  | [b] => [b]
+  | b :: c :: rest =>
+    if b == bBS then (if c == bNL then bashJoin rest else b :: c :: bashJoin rest)
+    else b :: bashJoin (c :: rest)
+
+/-- One left-to-right pass over here-document text (POSIX 2.7.4): `\$`, `` \` `` and `\\` lose the
+    backslash, every other backslash stays, expansions are replaced by their values, everything
+    else (quotes included) is copied. -/
+def hdocText (env : Env) : Nat → Bytes → Res Bytes
+  | 0, _ => .outside
+  | _ + 1, [] => .ok []
+  | fuel + 1, b :: rest =>
+    if b == 0 || b == 13 || b == bBQ then .outside
+    else if b == bBS then
+      match rest with
+      | [] => .ok [b]
+      | c :: rest' =>
+        if c == 0 || c == 13 then .outside
+        else (hdocText env fuel rest').map
+          ((if c == bBS || c == bDollar || c == bBQ then [c] else [b, c]) ++ ·)
+    else if b == bDollar then
+      match parseDollar rest with
+      | .err => .err
+      | .outside => .outside
+      | .ok none => (hdocText env fuel rest).map (b :: ·)
+      | .ok (some (p, r)) =>
+        match expandPartQ env false p with
+        | none => .outside
+        | some v => (hdocText env fuel r).map (v ++ ·)
+    else (hdocText env fuel rest).map (b :: ·)
+
+/-- What bash produces for `s` as here-document text. -/
+def hdocSem (s : Bytes) (env : Env) : Res Bytes :=
+  let t := bashJoin s
+  hdocText env (t.length + 1) t
+
+/-! ### arguments: atoms, split at separators (POSIX 2.6.5 with the default IFS) -/
+
+inductive Atom
+  | ch (b : UInt8)    -- a character that stays in its field
+  | sep               -- IFS white space coming from an unquoted expansion
+  | mark              -- a quoted (possibly empty) string was here: the field exists
+  deriving DecidableEq, Repr
+
+def valueAtoms (v : Bytes) : List Atom := v.map fun b => if isIfs b then .sep else .ch b
+def textAtoms (v : Bytes) : List Atom := v.map .ch
+
+def segAtoms (env : Env) (first more : Bool) : Seg → Option (List Atom)
+  | .unq (.lit raw) =>
+    if first then
+      let (pre, rest) := expandUser env raw more
+      some (Atom.mark :: textAtoms pre ++ textAtoms (unbackslash rest))
+    else some (textAtoms (unbackslash raw))
+  | .unq (.param n) => some (valueAtoms (paramVal env n))
+  | .unq (.paramOp n o w) => some (valueAtoms (expandOp env n o w))
+  | .unq (.arith e) => (evalA env e).map fun v => textAtoms (showInt v)
+  | .sq v => some (Atom.mark :: textAtoms v)
+  | .dq ps => (expandPartsQ env true ps).map fun v => Atom.mark :: textAtoms v
+
+def wordAtoms (env : Env) : Bool → List Seg → Option (List Atom)
+  | _, [] => some []
+  | first, seg :: rest => do
+    let a ← segAtoms env first (!rest.isEmpty) seg
+    let b ← wordAtoms env false rest
+    pure (a ++ b)
+
+/-- Split at separators; a group with no atom at all gives no field. -/
+def splitAtoms : List Atom → Option Bytes → List Bytes
+  | [], none => []
+  | [], some cur => [cur]
+  | .sep :: rest, none => splitAtoms rest none
+  | .sep :: rest, some cur => cur :: splitAtoms rest none
+  | .ch b :: rest, none => splitAtoms rest (some [b])
+  | .ch b :: rest, some cur => splitAtoms rest (some (cur ++ [b]))
+  | .mark :: rest, none => splitAtoms rest (some [])
+  | .mark :: rest, some cur => splitAtoms rest (some cur)
+
+def wordArgs (env : Env) (segs : List Seg) : Option (List Bytes) :=
+  (wordAtoms env true segs).map fun as => splitAtoms as none
+
+def wordsArgs (env : Env) : List (List Seg) → Option (List Bytes)
+  | [] => some []
+  | w :: rest => do
+    let a ← wordArgs env w
+    let b ← wordsArgs env rest
+    pure (a ++ b)
+
+/-- What bash produces for `s` as the arguments of a command (no globbing). -/
+def argsSem (s : Bytes) (env : Env) : Res (List Bytes) :=
+  if (envF env "IFS".toUTF8.toList).isEmpty then
+    match parseWords (s.length + 1) s [] with
+    | .err => .err
+    | .outside => .outside
+    | .ok ws =>
+      match wordsArgs env ws with
+      | some fs => .ok fs
+      | none => .outside
+  else .outside
 
 end ShVerif.C25
